@@ -13,6 +13,15 @@ NOTE_R = ("Mode R = IEEE specials over exact reals (no rounding/overflow/signed 
           "with instance axioms. Trusted: z3, the shim's model of NumPy element semantics, the oracles in /verif/spec and the harness. ")
 
 CHECKS = {
+    "C02": dict(
+        text="Bounded symbolic verification: engines of registered components (Mamdani with every integral defuzzifier, Takagi-Sugeno with "
+             "Constant/Linear/Function terms, Tsukamoto, hedged consequents, two blocks with an output variable in an antecedent) are "
+             "built twice from the same symbolic state; the real code processes a batch of N symbolic rows at once (both batch APIs) and "
+             "the same rows one after another as scalars, through a shim whose array shape handling is NumPy's own; per row the solver "
+             "decides whether any output value or fuzzy-output degree can differ, over all extended-real inputs, every lock-previous/"
+             "default/lock-range setting and an arbitrary previous value, and a path where exactly one mode raises is a counterexample.",
+        note=NOTE_R + "N <= 3 rows quick (4 thorough); fuzzy_value() strings not modelled (degrees compared); General activation.",
+        ref="DESIGN.md §2 C02"),
     "C01": dict(
         text="Bounded symbolic verification: engines built by the real constructors/Rule.create from generated skeletons (1-3 inputs, "
              "1-2 outputs, 1-2 blocks, antecedent trees, output variables in later antecedents) are processed by the real Engine.process "
